@@ -395,7 +395,7 @@ func (e *Engine) checkAssert(c *Term, label string) {
 		}
 	}
 	if !e.decideAssume(c) {
-		e.end("done", "assert-false-on-all")
+		e.end("assertion-violated", "")
 	}
 }
 
